@@ -3,13 +3,16 @@ import Sessions.Model.Codec
 # The persistence calls and `cache.go`
 
 Every persistence call consumes one entry of the fault oracle `State.fails` (`true` = the call
-fails; an exhausted oracle never fails). `picks` is the order oracle: where Go iterates over a map
-(idle sweep, ties between equally old sessions, `PurgeSessions`) the model follows the order in
-which the ids appear in `picks`; theorems quantify over every `picks`.
+fails; an exhausted oracle never fails). `State.picks` is the order oracle: the ids of the
+`SaveSession` calls the implementation went on to make in this operation; every save consumes one
+entry. Where Go iterates over a map (idle sweep, ties between equally old sessions,
+`PurgeSessions`) the model follows that order; theorems quantify over every oracle.
 -/
 namespace Sx
 
 def popFail (s : State) : Bool × State := (s.fails.headD false, { s with fails := s.fails.tail })
+
+def popPick (s : State) : State := { s with picks := s.picks.tail }
 
 /-- the store after a successful `SaveSession(id, o)`. -/
 def storePut (cfg : Cfg) (s : State) (id : ID) (o : Sess) : State :=
@@ -17,7 +20,7 @@ def storePut (cfg : Cfg) (s : State) (id : ID) (o : Sess) : State :=
 
 /-- `Persistence.SaveSession(id, o)`; the Boolean says whether it succeeded. -/
 def saveRec (cfg : Cfg) (s : State) (id : ID) (o : Sess) : State × Bool × List Ev :=
-  let (f, s0) := popFail s
+  let (f, s0) := popFail (popPick s)
   if f then (s0, false, [.saveFail id])
   else (storePut cfg s0 id o, true, [.save id (enc cfg.codec o)])
 
@@ -81,34 +84,34 @@ def firstMin (s : State) (m : Int) : List (ID × Nat) → Option (ID × Nat)
 
 /-- The eviction victim: an entry with minimal `lastAccess`; among several, the first in the order
 oracle. -/
-def victim (s : State) (picks : List ID) : Option (ID × Nat) :=
+def victim (s : State) : Option (ID × Nat) :=
   match minLA s s.cache with
   | none => none
-  | some m => firstMin s m (orderBy picks s.cache)
+  | some m => firstMin s m (orderBy (s.picks.take 1) s.cache)
 
-def evictLoop (cfg : Cfg) (req : Int) (picks : List ID) : Nat → State → State × List Ev
+def evictLoop (cfg : Cfg) (req : Int) : Nat → State → State × List Ev
   | 0, s => (s, [])
   | fuel+1, s =>
     if (s.cache.length : Int) + req > cfg.maxCache then
-      match victim s picks with
+      match victim s with
       | none => (s, [])
       | some (id, h) =>
         let (s1, ok, e1) := saveRec cfg s id (s.obj h)
         if ok then
           let s2 := { s1 with cache := erase id s1.cache }
-          let (s3, e3) := evictLoop cfg req picks fuel s2
+          let (s3, e3) := evictLoop cfg req fuel s2
           (s3, e1 ++ e3)
         else (s1, e1)
     else (s, [])
 
 /-- `c.compact(req)`; its error result is ignored by both callers. -/
-def compact (cfg : Cfg) (req : Int) (picks : List ID) (s : State) : State × List Ev :=
-  let (s1, ok, e1) := sweep cfg s (orderBy picks s.cache)
+def compact (cfg : Cfg) (req : Int) (s : State) : State × List Ev :=
+  let (s1, ok, e1) := sweep cfg s (orderBy s.picks s.cache)
   if !ok then (s1, e1)
   else if cfg.maxCache < 0 || (s1.cache.length : Int) + req ≤ cfg.maxCache then (s1, e1)
   else
     let req' := if req > cfg.maxCache then cfg.maxCache else req
-    let (s2, e2) := evictLoop cfg req' picks s1.cache.length s1
+    let (s2, e2) := evictLoop cfg req' s1.cache.length s1
     (s2, e1 ++ e2)
 
 /-! ### cache.Get / Set / Delete, PurgeSessions -/
@@ -119,7 +122,7 @@ inductive GetRes where
   | some (h : Nat)
 deriving Repr, DecidableEq
 
-def cacheGet (cfg : Cfg) (picks : List ID) (s : State) (id : ID) : State × GetRes × List Ev :=
+def cacheGet (cfg : Cfg) (s : State) (id : ID) : State × GetRes × List Ev :=
   match lookup id s.cache with
   | some h => (s, .some h, [])
   | none =>
@@ -129,16 +132,16 @@ def cacheGet (cfg : Cfg) (picks : List ID) (s : State) (id : ID) : State × GetR
     | (s0, .found o, e0) =>
       let (h, s1) := s0.alloc o
       if cfg.maxCache != 0 then
-        let (s2, e2) := compact cfg 1 picks s1
+        let (s2, e2) := compact cfg 1 s1
         ({ s2 with cache := insert id h s2.cache }, .some h, e0 ++ e2)
       else (s1, .some h, e0)
 
 /-- `sessions.Set(obj h)`; the Boolean says whether the write-through save succeeded. -/
-def cacheSet (cfg : Cfg) (picks : List ID) (s : State) (h : Nat) : State × Bool × List Ev :=
+def cacheSet (cfg : Cfg) (s : State) (h : Nat) : State × Bool × List Ev :=
   let o := { s.obj h with lastAccess := s.now }
   let s0 := s.setObj h o
   let req : Int := if (lookup o.id s0.cache).isSome then 0 else 1
-  let (s1, e1) := compact cfg req picks s0
+  let (s1, e1) := compact cfg req s0
   let s2 := if cfg.maxCache != 0 then { s1 with cache := insert o.id h s1.cache } else s1
   let (s3, ok, e3) := saveRec cfg s2 o.id (s2.obj h)
   (s3, ok, e1 ++ e3)
@@ -154,8 +157,8 @@ def purgeList (cfg : Cfg) (s : State) : List (ID × Nat) → State × List Ev
     let (s2, e2) := purgeList cfg s1 rest
     (s2, e1 ++ e2)
 
-def purge (cfg : Cfg) (picks : List ID) (s : State) : State × List Ev :=
-  let (s1, e1) := purgeList cfg s (orderBy picks s.cache)
+def purge (cfg : Cfg) (s : State) : State × List Ev :=
+  let (s1, e1) := purgeList cfg s (orderBy s.picks s.cache)
   ({ s1 with cache := [] }, e1)
 
 end Sx
